@@ -104,6 +104,15 @@ int __wrap_unlink(const char* p) { struct stat st; if (stat(p, &st) != 0) return
 int __wrap_rename(const char* a, const char* b) { struct stat st; if (stat(a, &st) != 0) return __real_rename(a, b); if (vfs_event()) return 0; return __real_rename(a, b); }
 int __wrap_truncate(const char* p, off_t n) { struct stat st; if (stat(p, &st) != 0) return __real_truncate(p, n); if (vfs_event()) return 0; return __real_truncate(p, n); }
 void verif_expect_fatal(int) {}
+// stdout pretending to be a terminal (linked with --wrap=isatty,--wrap=ioctl)
+static int g_tty_on, g_tty_cols;
+void verif_set_tty(int on, int cols) { g_tty_on = on; g_tty_cols = cols; }
+int __real_isatty(int); int __real_ioctl(int, unsigned long, void*);
+int __wrap_isatty(int fd) { if (g_tty_on) return fd == 1; return __real_isatty(fd); }
+int __wrap_ioctl(int fd, unsigned long req, void* arg) {
+  if (g_tty_on && req == 0x5413) { unsigned short* ws = (unsigned short*)arg; ws[0] = 24; ws[1] = (unsigned short)g_tty_cols; ws[2] = ws[3] = 0; return 0; }
+  return __real_ioctl(fd, req, arg);
+}
 static FILE* g_cap; static FILE* g_cap_err; static long g_err_base, g_out_base;
 void verif_stdout_capture(void) { fflush(stdout); fflush(stderr); if (!g_cap) g_cap = tmpfile(); dup2(fileno(g_cap), 1); { struct stat so; fstat(fileno(g_cap), &so); g_out_base = so.st_size; }
   if (!g_cap_err) { g_cap_err = tmpfile(); dup2(fileno(g_cap_err), 2); } struct stat st; fstat(fileno(g_cap_err), &st); g_err_base = st.st_size; }
